@@ -45,6 +45,9 @@ type Config struct {
 	// ThrottleFront: a permissive throttling rule (1000 per second, queueing up to 1 s) is listed in front of the
 	// reject rules: requests at one instant are queued by it and must still be checked by the rules behind it
 	ThrottleFront bool `json:"throttling_rule_in_front,omitempty"`
+	// ReloadRef: rule #0 is an associated-resource rule and the reload changes ONLY its RefResource (toggling
+	// between "b" and "c"): afterwards the tokens of the newly referenced resource decide
+	ReloadRef bool `json:"reload_ref_resource,omitempty"`
 }
 
 func (c Config) String() string {
@@ -114,14 +117,20 @@ type scen struct {
 	geoms []winGeom
 	adm   []admit
 	now   int64
+	ref0  string // resource rule #0 refers to (ReloadRef configurations)
 	lcm   int64
 	th    []float64 // thresholds in force
 }
 
-func (s *scen) Name() string        { return s.cfg.String() }
-func (s *scen) NumOps() int         { return len(s.ops) }
-func (s *scen) OpName(i int) string { return s.ops[i].String() }
-func (s *scen) Enabled(i int) bool  { return true }
+func (s *scen) Name() string { return s.cfg.String() }
+func (s *scen) NumOps() int  { return len(s.ops) }
+func (s *scen) OpName(i int) string {
+	if s.ops[i].reload && s.cfg.ReloadRef {
+		return "reload(RefResource toggled)"
+	}
+	return s.ops[i].String()
+}
+func (s *scen) Enabled(i int) bool { return true }
 
 func gcd(a, b int64) int64 {
 	for b != 0 {
@@ -138,6 +147,7 @@ func (s *scen) Reset() {
 	s.geoms = s.geoms[:0]
 	s.lcm = int64(s.cfg.G.ArrIntervalMs)
 	s.th = s.th[:0]
+	s.ref0 = "b"
 	for i, r := range s.cfg.Rules {
 		s.th = append(s.th, r.T)
 		fr := &flow.Rule{ID: fmt.Sprint(i), Resource: "a", TokenCalculateStrategy: flow.Direct, ControlBehavior: flow.Reject,
@@ -165,12 +175,20 @@ func (s *scen) loadList() []*flow.Rule {
 	return append([]*flow.Rule{front}, s.rules...)
 }
 
+// refOf: the resource whose admitted tokens rule #i counts
+func (s *scen) refOf(i int) string {
+	if !s.cfg.Rules[i].Assoc {
+		return "a"
+	}
+	if i == 0 && s.cfg.ReloadRef {
+		return s.ref0
+	}
+	return "b"
+}
+
 func (s *scen) winSum(i int, now int64) int64 {
 	g := s.geoms[i]
-	res := "a"
-	if s.cfg.Rules[i].Assoc {
-		res = "b"
-	}
+	res := s.refOf(i)
 	cur := now - now%g.bl
 	lo := cur - g.iv + g.bl
 	var sum int64
@@ -188,6 +206,23 @@ func (s *scen) winSum(i int, now int64) int64 {
 
 func (s *scen) Apply(i int) (string, string) {
 	o := s.ops[i]
+	if o.reload && s.cfg.ReloadRef {
+		nr := *s.rules[0]
+		if s.ref0 == "b" {
+			s.ref0 = "c"
+		} else {
+			s.ref0 = "b"
+		}
+		nr.RefResource = s.ref0
+		s.rules[0] = &nr
+		if _, err := flow.LoadRules(s.loadList()); err != nil {
+			return "", "reload failed: " + err.Error()
+		}
+		if len(flow.GetRulesOfResource("a")) != len(s.loadList()) {
+			return "", "after the reload the resource does not have all its rules"
+		}
+		return "", ""
+	}
 	if o.reload {
 		nr := *s.rules[0]
 		if s.th[0] == s.cfg.Rules[0].T {
@@ -276,13 +311,13 @@ func (s *scen) sums() []int64 {
 
 func (s *scen) Key() string {
 	var b strings.Builder
-	fmt.Fprintf(&b, "%v|", s.th)
+	fmt.Fprintf(&b, "%v%s|", s.th, s.ref0)
 	if s.now < 3*s.lcm {
 		fmt.Fprintf(&b, "abs%d|", s.now)
 	} else {
 		fmt.Fprintf(&b, "ph%d|", s.now%s.lcm)
 	}
-	for _, res := range []string{"a", "b"} {
+	for _, res := range []string{"a", "b", "c"} {
 		if n := stat.GetResourceNode(res); n != nil {
 			bk, _ := n.VerifArr().VerifDump()
 			for _, x := range bk {
@@ -302,10 +337,7 @@ func (s *scen) Key() string {
 	}
 	// reference: per rule, per bucket sums relative to the current bucket, two windows back
 	for i, g := range s.geoms {
-		res := "a"
-		if s.cfg.Rules[i].Assoc {
-			res = "b"
-		}
+		res := s.refOf(i)
 		cur := s.now - s.now%g.bl
 		m := map[int64]int64{}
 		for _, a := range s.adm {
@@ -329,8 +361,11 @@ func (s *scen) Key() string {
 
 func mkOps(cfg Config) []opDef {
 	ops := []opDef{{req: true, res: "a", batch: 1}, {req: true, res: "a", batch: 2}, {req: true, res: "a", batch: 4}}
-	if cfg.ReloadT > 0 {
+	if cfg.ReloadT > 0 || cfg.ReloadRef {
 		ops = append(ops, opDef{reload: true})
+	}
+	if cfg.ReloadRef {
+		ops = append(ops, opDef{req: true, res: "c", batch: 1}, opDef{req: true, res: "c", batch: 2})
 	}
 	assoc := false
 	for _, r := range cfg.Rules {
@@ -424,6 +459,8 @@ func configs(quick bool) []Config {
 					out = append(out, Config{G: g.g, Rules: []RuleSpec{{2, k, false}}, T0: (int64(1)<<32)*bl - bl/2 - 1})
 				}
 			}
+			// a reload that changes only the resource an associated rule refers to
+			out = append(out, Config{G: g.g, Rules: []RuleSpec{{2, 0, true}}, T0: t0, ReloadRef: true})
 			// associated-resource rules (the referenced resource has its own traffic)
 			for _, k := range g.kinds {
 				out = append(out, Config{G: g.g, Rules: []RuleSpec{{2, k, true}}, T0: t0})
